@@ -87,12 +87,17 @@ def cases(tier):
                 np_ = len(presets(cmd, n))
                 for lo in range(0, np_, 8):
                     yield ("op", cmd, n, lo, min(np_, lo + 8), tier)
+                if n <= 2:
+                    for lo in range(0, np_, 8):
+                        yield ("op32", cmd, n, lo, min(np_, lo + 8), tier)  # single-precision inputs
         else:
             np_ = len(presets(cmd, 1))
             blk = 6
             for lo in range(0, np_, blk):
                 for dt in ("float", "int"):
                     yield ("cvt", cmd, dt, lo, min(np_, lo + blk), tier)
+            for lo in range(0, np_, blk * 4):
+                yield ("cvt", cmd, "float32", lo, min(np_, lo + blk * 4), tier)
     for cmd in SIG.FUZZY_PRODUCERS:
         yield ("reuse", cmd, tier)
 
@@ -117,7 +122,8 @@ def _check_range(cmd, res, viols, tag):
 
 
 def _op(case):
-    _, cmd, n, lo, hi, tier = case
+    kind_, cmd, n, lo, hi, tier = case
+    dt_ = "float32" if kind_ == "op32" else "float"
     lat = FZ_IN if n <= 3 else FZ_IN4
     tuples = list(itertools.product(lat, repeat=n))
     cols = [[t[i] for t in tuples] for i in range(n)]
@@ -126,10 +132,10 @@ def _op(case):
     P = presets(cmd, n)
     for pi in range(lo, hi):
         params = P[pi]
-        arrays = [D.mk_array(c) for c in cols]
+        arrays = [D.mk_array(c, dtype=dt_) for c in cols]
         res = D.execute(cmd, arrays, params)
         evals += len(tuples)
-        tag = {"cmd": cmd, "n": n, "params": params, "lattice": [repr(x) for x in lat]}
+        tag = {"cmd": cmd, "n": n, "params": params, "lattice": [repr(x) for x in lat], "dtype": dt_}
         if res[0] == "err":
             k = "%s:err:%s" % (cmd, D.error_name(res[1]))
             outcomes[k] = outcomes.get(k, 0) + 1
@@ -148,11 +154,13 @@ def _cvt(case):
     lat = RAW if tier == "quick" else RAW_X
     if dt == "int":
         lat = [-2, -1, 0, 1, 5, 10 ** 6, M]
+    if dt == "float32":
+        lat = [-2.0, 0.0, 0.25, 1.0, 5.0, 1e6, M]
     viols, outcomes = [], {}
     evals = judged = nontriv = 0
     P = presets(cmd, 1)
     sample = None
-    for size in (1, 2, 3):
+    for size in ((1, 2, 3) if dt != "float32" else (1, 2)):
         for cells in itertools.product(lat, repeat=size):
             if all(c is None for c in cells):
                 continue
@@ -227,4 +235,4 @@ def run(case):
     case = tuple(case)
     if case[0] == "reuse":
         return _reuse(case)
-    return _op(case) if case[0] == "op" else _cvt(case)
+    return _op(case) if case[0] in ("op", "op32") else _cvt(case)
